@@ -937,6 +937,31 @@ impl Val for f32 {
     }
 }
 
+/// An `ExactSizeIterator` over rows of the right width whose `len()` says `claimed` but which yields `given`.
+struct Rows<T> {
+    claimed: usize,
+    given: usize,
+    next: usize,
+    width: usize,
+    _t: std::marker::PhantomData<T>,
+}
+impl<T: Val> Iterator for Rows<T> {
+    type Item = Vec<T>;
+    fn next(&mut self) -> Option<Vec<T>> {
+        if self.next < self.given {
+            let i = self.next;
+            self.next += 1;
+            Some((0..self.width).map(|j| T::from_i((i * 7 + j + 1) as i64)).collect())
+        } else {
+            None
+        }
+    }
+    fn size_hint(&self) -> (usize, Option<usize>) {
+        (self.claimed, Some(self.claimed))
+    }
+}
+impl<T: Val> ExactSizeIterator for Rows<T> {}
+
 fn run_dense<T: Val, C: lightmotif::num::ArrayLength>(ops: &[&str]) -> String {
     let mut m: DenseMatrix<T, C> = DenseMatrix::new(0);
     let mut out = Vec::new();
@@ -965,6 +990,11 @@ fn run_dense<T: Val, C: lightmotif::num::ArrayLength>(ops: &[&str]) -> String {
                         })
                         .collect();
                     *mm = DenseMatrix::from_rows(rows);
+                }
+                "fromshort" => {
+                    // from_rows over an iterator whose len() claims p[1] rows but which yields p[2]
+                    let it = Rows::<T> { claimed: pu(p[1]), given: pu(p[2]), next: 0, width: C::USIZE, _t: std::marker::PhantomData };
+                    *mm = DenseMatrix::from_rows(it);
                 }
                 "set" => {
                     let (r, c) = (pu(p[1]), pu(p[2]));
@@ -1216,6 +1246,14 @@ fn gen_dense(rng: &mut Rng, tier: &str) -> String {
                 rows = n;
             }
             format!("from:{}:{}", n, ragged as u8)
+        } else if k < 76 {
+            // an ExactSizeIterator whose len() is wrong (fewer rows, occasionally one more)
+            let n = rng.below(12) as usize;
+            let m = if rng.chance(1, 5) { n + 1 } else { rng.below(n as u64 + 1) as usize };
+            if m <= n {
+                rows = n;
+            }
+            format!("fromshort:{}:{}", n, m)
         } else if k < 88 {
             let oob = rng.chance(1, 15);
             let r = if oob { rows + rng.below(2) as usize } else { rng.below(rows.max(1) as u64) as usize };
@@ -1478,7 +1516,10 @@ fn crashme(kind: &str) {
             }
             impl ExactSizeIterator for Short {}
             let m = DenseMatrix::<u32, U5>::from_rows(Short(0));
-            println!("rows={} row0={:?} row1={:x?} row3={:x?}", m.rows(), &m[0], &m[1], &m[3]);
+            println!("len() claimed 4 rows, 1 yielded: rows()={}", m.rows());
+            for r in 0..m.rows() {
+                println!("row{}={:x?}", r, &m[r]);
+            }
             return;
         }
         "gather-oob" => {
